@@ -64,7 +64,7 @@ func (o *ExpressionOptimizer) tryReorderBinaryOp(e *BinaryOpExpr) {
 
 	if !leftIsValue && leftIsOp && rightIsValue && !rightIsOp {
 		// fmt.Println("DEBUG:", e)
-		if leftOpExpr.Op == e.Op {
+		if leftOpExpr.Op == e.Op && canReassociate(leftOpExpr.Left, leftOpExpr.Right, e.Right) {
 			switch rexpr := leftOpExpr.Right.(type) {
 			case *StringExpr, *NumberExpr, *FloatExpr:
 				// (ANY op VALUE) op VALUE
@@ -303,4 +303,42 @@ func floatLiteral(f float64) string {
 		ret += ".0"
 	}
 	return ret
+}
+
+// canReassociate tells whether (any op c1) op c2 may be computed as
+// any op (c1 op c2). Text concatenation and integer + and * are associative,
+// float arithmetic is not: (x * 0.1) * 3 and x * (0.1 * 3) differ in the last
+// digit. So numbers are only regrouped when everything involved is an integer
+func canReassociate(operand, c1, c2 Expression) bool {
+	if isIntegerExpr(c1) != isIntegerExpr(c2) {
+		return false
+	}
+	if !isIntegerExpr(c2) {
+		// strings, or a float constant
+		return c2.ReturnType() == TSTR
+	}
+	return isIntegerExpr(operand)
+}
+
+// isIntegerExpr reports whether expr always evaluates to an integer
+func isIntegerExpr(expr Expression) bool {
+	switch e := expr.(type) {
+	case *NumberExpr:
+		return true
+	case *FunctionCallExpr:
+		fname, err := GetFuncNameFromExpr(e)
+		if err != nil {
+			return false
+		}
+		switch fname {
+		case "int", "strlen", "len":
+			return true
+		}
+	case *BinaryOpExpr:
+		switch e.Op {
+		case Add, Sub, Mul, Div:
+			return isIntegerExpr(e.Left) && isIntegerExpr(e.Right)
+		}
+	}
+	return false
 }
